@@ -11,7 +11,7 @@ CONSTANTS
   PbTerms = 3
   PbPols = {1}
   PbNeg = 0
-  PbPos = 2
+  PbPos = 1
   PbBound = 3
   PbOps = {">="}
   MaxMgrs = 3
